@@ -127,7 +127,7 @@ def run_prop(prop, tier, ctx=None, quiet=False):
             raise AnalysisBroken('if-constexpr arms not covered by the configuration matrix: ' + '; '.join(missing))
         if len(cov) < registry.MIN_CONSTEXPR_IFS:
             raise AnalysisBroken(f'only {len(cov)} if-constexpr sites seen in the PGM headers (expected >= {registry.MIN_CONSTEXPR_IFS})')
-        obs = common.dedup(spec['rules'](ctx))
+        obs = common.soften_unknown(common.dedup(spec['rules'](ctx)))
         # instance counts against the confirmed minimum (a violated obligation is reported first: it is not a pass)
         counts = {}
         for o in obs:
@@ -210,7 +210,7 @@ def replay(path):
     ctx = build_ctx(d.get('tier', 'quick'))
     spec = registry.PROPS[prop]
     try:
-        obs = common.dedup(spec['rules'](ctx))
+        obs = common.soften_unknown(common.dedup(spec['rules'](ctx)))
     except AnalysisBroken as e:
         print(f'ANALYSIS-BROKEN: property={prop} {e}')
         return 2
